@@ -17,6 +17,7 @@ static void region_hook(int type, long off) { OVERWRITES.push_back(std::make_pai
 static const char PAYLOAD[] = "PAYLOAD-PAYLOAD!";
 
 struct Item { long code; Bytes data; long lenfield; };
+static long VARIANT = 0;       // scenario id parity: the second concretisation of a kind (see KIP, KDHCP6)
 static unsigned ALT = 0;      // alternates between the rvalue and the const& overload of add_option / add_tag
 struct Kind {
     virtual ~Kind() {}
@@ -41,7 +42,8 @@ struct KTCP : Kind { EthernetII pkt; TCP* t; KTCP() { pkt = EthernetII() / IP("1
     PDU* parse(const Bytes& b) { return new EthernetII(&b[0], (uint32_t)b.size()); }
     std::vector<Item> list_of(PDU& p) { return lst(&p.rfind_pdu<TCP>()); } };
 struct KIP : Kind { EthernetII pkt; IP* t; KIP() { pkt = EthernetII() / IP("1.2.3.4", "4.3.2.1") / UDP(1, 2) / RawPDU(PAYLOAD); t = pkt.find_pdu<IP>(); }
-    PDU* root() { return &pkt; } long concrete(long c) { return c == 0 ? 0x88 : c == 1 ? 0x94 : 1; }
+    PDU* root() { return &pkt; } long concrete(long c) { if (VARIANT) return c == 0 ? 0x07 : c == 1 ? 0x87 : 1;      /* same number and class, only the copied flag differs */
+                                                        return c == 0 ? 0x88 : c == 1 ? 0x94 : 1; }
     static long code_of(const IP::option& o) { const IP::option_identifier& id = o.option(); return (id.copied << 7) | (id.op_class << 5) | id.number; }
     bool add(long c, const Bytes& d, long sp) { if (sp >= 0) t->add_option(IP::option(IP::option_identifier((uint8_t)c), (uint16_t)sp, d.begin(), d.end())); else { if (ALT++ % 2) t->add_option(IP::option(IP::option_identifier((uint8_t)c), d.begin(), d.end())); else { IP::option named(IP::option_identifier((uint8_t)c), d.begin(), d.end()); t->add_option(named); } }; return true; }
     int remove(long c) { return t->remove_option(IP::option_identifier((uint8_t)c)) ? 1 : 0; }
@@ -76,7 +78,8 @@ struct KDHCP : Kind { DHCP pkt; KDHCP() { pkt.chaddr(HWAddress<6>("00:11:22:33:4
     bool find(long c, Item& o) { const DHCP::option* x = pkt.search_option((DHCP::OptionTypes)c); if (!x) return false; o = item_of(*x, x->option()); return true; }
     PDU* parse(const Bytes& b) { return new DHCP(&b[0], (uint32_t)b.size()); }
     std::vector<Item> list_of(PDU& p) { return lst(static_cast<DHCP*>(&p)); } };
-struct KDHCP6 : Kind { DHCPv6 pkt; KDHCP6() { pkt.msg_type(DHCPv6::SOLICIT); pkt.transaction_id(7); }
+struct KDHCP6 : Kind { DHCPv6 pkt; KDHCP6() { if (VARIANT) { pkt.msg_type(DHCPv6::RELAY_FORWARD); pkt.hop_count(3); pkt.link_address("2001:db8::1"); pkt.peer_address("fe80::2"); }      /* a relay message: 34-octet fixed part */
+                                               else { pkt.msg_type(DHCPv6::SOLICIT); pkt.transaction_id(7); } }
     PDU* root() { return &pkt; } long concrete(long c) { return c == 0 ? 1000 : c == 1 ? 1001 : 1002; }
     bool add(long c, const Bytes& d, long sp) { if (sp >= 0) pkt.add_option(DHCPv6::option((uint16_t)c, (uint16_t)sp, d.begin(), d.end())); else { if (ALT++ % 2) pkt.add_option(DHCPv6::option((uint16_t)c, d.begin(), d.end())); else { DHCPv6::option named((uint16_t)c, d.begin(), d.end()); pkt.add_option(named); } }; return true; }
     int remove(long c) { return pkt.remove_option((DHCPv6::OptionTypes)c) ? 1 : 0; }
@@ -153,6 +156,7 @@ static void scenario(const vh::Json& sc, vh::Out& out, vh::Rng& rng, const vh::A
     const std::string kind = sc["kind"].str();
     out.begin("\"kind\":\"" + kind + "\"");
     if (kind == "llc" || kind == "mld2") { special_kind(kind, sc["ops"], out, rng); out.end(); return; }
+    VARIANT = out.sid % 2;
     Kind* K = make_kind(kind); if (!K) { out.discard(); return; }
     const vh::Json& ops = sc["ops"]; const bool lazy = sc["lazy"].truth();
     for (size_t i = 0; i < ops.size(); ++i) {
